@@ -154,6 +154,22 @@ CLAIMED["C12"] = dict(
          "Objects created by the global initialisers are unknown to the model (events on them are not judged).",
     technique="TLA+ lifecycle model; trace validation of hook-recorded alloc/retain/release events and per-sample live counts",
 )
+CLAIMED["C03"] = dict(
+    category="model_checking",
+    text="RuntimeTrace.tla is the outcome contract of a compile-and-run session: rejected with diagnostics, or accepted and then "
+         "every dsp call returns exactly the declared number of output words; there is no action for panic, abort or hang. The "
+         "hooks run in strict mode, which checks every instrumented access of the state storage against its capacity and turns "
+         "an access outside it into an abnormal end, so such a trace is not a behaviour of the specification. Inputs: every "
+         "LangGen program of the budget (TLC), deterministic type-changing near-miss mutants of them (scalar -> tuple, empty and "
+         "17-element tuples, function where a number is expected, unit-valued if, projection of a scalar, arity changes), the "
+         "shipped sources; each recorded session is validated with TLC.",
+    design_ref="DESIGN.md §6 C03",
+    note="Thin contract specification. Near-miss mutants are replayed on the VM only (the WASM back end fails on most accepted "
+         "mutants: one pinned instance per class); the VM mutants that crash on the pinned tree are pinned individually (type "
+         "checker accepts a non-function passed to a higher-order function; unit-valued if used as a value; unused lambda with "
+         "unresolved parameter type). Only instrumented access sites are observed.",
+    technique="TLC-enumerated programs and deterministic near-miss mutants; trace validation of session outcomes against a TLA+ contract; strict-mode bounds hooks",
+)
 NOT_YET = {}
 
 checks = []
